@@ -37,6 +37,7 @@ class Report:
         self.discharged = 0
         self.nontrivial = set()       # distinct non-trivial instance keys
         self.samples = []
+        self._sample_sigs = set()
         self.findings = []
         self.rules = {}               # rule name -> {'instances': n, 'open': n}
         self.notes = []
@@ -54,8 +55,13 @@ class Report:
         self.rule(rule)['instances'] += 1
         if nontrivial:
             self.nontrivial.add(key)
-        if sample is not None and len(self.samples) < 12:
-            self.samples.append(sample)
+        if sample is not None and len(self.samples) < 24:
+            # at most one sample per (rule, field / key) and ten per rule: the samples show the breadth of a run
+            sig = (rule, str(sample.get('field') or sample.get('type') or sample.get('fn') or key))
+            per_rule = sum(1 for s_ in self._sample_sigs if s_[0] == rule)
+            if sig not in self._sample_sigs and per_rule < 10:
+                self._sample_sigs.add(sig)
+                self.samples.append(sample)
 
     def fail(self, rule, key, site, detail, **kw):
         self.obligations += 1
@@ -159,7 +165,7 @@ def finish(rep, level):
         'rule': 'one evaluation = one rule instance / proof obligation decided on the MIR of the current tree; '
                 'non-trivial = its verdict needed a non-constant abstract value, a table comparison or a path fact '
                 '(instances with all-constant operands are counted as trivial); distinct by stable obligation key',
-        'samples': rep.samples[:12] if rep.samples else [{'note': 'no sample recorded'}],
+        'samples': rep.samples[:24] if rep.samples else [{'note': 'no sample recorded'}],
         'checker_cmd': './check %s %s' % (rep.pid, rep.tier),
         'trusted_base': rep.trusted or ['rustc MIR semantics (nightly, mir-opt-level=0)', 'library contracts in checker/models.py',
                                         'the abstract interpreter checker/absint.py'],
